@@ -529,11 +529,20 @@ def derivBatch (c : DerivCfg) (b : Batch) : Batch := { b with points := derivBPo
 
 /-! ## changeDetect -/
 
+/-- Go `!=` on interface values holding field values: same dynamic type and equal value; floats compare numerically
+(-0.0 equals 0.0, NaN differs from itself). -/
+def Val.goEq : Val → Val → Bool
+  | .flt a, .flt b => f64 a == f64 b
+  | a, b => decide (a = b)
+
 /-- `ChangeDetectNode.changeDetect`: some listed field that is present differs from the previous (absent counts as different). -/
 def changed (fs : List String) (prev : Option Fields) (curr : Fields) : Bool :=
   fs.any (fun f => match aget curr f with
     | none => false
-    | some v => (prev.bind (fun pf => aget pf f)) ≠ some v)
+    | some v =>
+      match prev.bind (fun pf => aget pf f) with
+      | some pv => !Val.goEq pv v
+      | none => true)
 
 def changeStep (fs : List String) (prev : Option Fields) (p : Point) : Option Fields × List Point :=
   if changed fs prev p.fields then (some p.fields, [p]) else (prev, [])
